@@ -312,7 +312,7 @@ P("C16", ["R01", "R02", "R03", "R17", "R21", "R37"],
   ["client code does not write underscore attributes; no "
    "object.__setattr__/ctypes tricks (checked absent in the package)"], [])
 
-P("C17", ["R29", "R13d", "R26", "R23", "R20", "R12"],
+P("C17", ["R29", "R13d", "R26", "R23", "R20", "R12", "R44", "R45"],
   "folded directive table vs POSIX meaning, representation abstract "
   "interpretation of strftime",
   "R29 the directive table holds exactly the supported set, each directive "
@@ -327,7 +327,7 @@ P("C17", ["R29", "R13d", "R26", "R23", "R20", "R12"],
   "strftime/strptime are ValueError-derived.",
   "character-level equality with libc strftime output.", [], [])
 
-P("C18", ["R26", "R12", "R14", "R07", "R41", "R42"],
+P("C18", ["R26", "R12", "R14", "R07", "R41", "R42", "R44"],
   "def-use dependence on the offset sign, unit inference with literal "
   "divisors",
   "(thin) R26 both components returned by get_local_time_zone are computed "
